@@ -630,6 +630,11 @@ class SimplicialComplex(Hypergraph):
 
                 continue
 
+            # merge the attributes first: a malformed attribute entry must
+            # fail before the simplex is stored
+            edge_attr = self._edge_attr_dict_factory()
+            edge_attr.update(attr)
+            edge_attr.update(eattr)
             self._edge[idx] = member_set
 
             for n in members:
@@ -638,9 +643,7 @@ class SimplicialComplex(Hypergraph):
                     self._node_attr[n] = self._node_attr_dict_factory()
                 self._node[n].add(idx)
 
-            self._edge_attr[idx] = self._edge_attr_dict_factory()
-            self._edge_attr[idx].update(attr)
-            self._edge_attr[idx].update(eattr)
+            self._edge_attr[idx] = edge_attr
 
             update_uid_counter(self, idx)
 
